@@ -1,10 +1,13 @@
 package verif
 
 import (
+	"crypto"
 	cryptorand "crypto/rand"
 	"errors"
 	"hash"
 	"io"
+
+	"golang.org/x/crypto/sha3"
 )
 
 // Environment stubs (always active): hash functions are uninterpreted functions of the byte string written
@@ -91,4 +94,66 @@ func itoa(n int) string {
 		n /= 10
 	}
 	return s
+}
+
+// crypto.Hash registry (not initialised in the engine): digest/block sizes by identifier, New() = stub.
+func hashParams(h crypto.Hash) (string, int, int) {
+	switch h {
+	case crypto.SHA224:
+		return "sha224", 28, 64
+	case crypto.SHA256:
+		return "sha256", 32, 64
+	case crypto.SHA384:
+		return "sha384", 48, 128
+	case crypto.SHA512:
+		return "sha512", 64, 128
+	case crypto.SHA512_256:
+		return "sha512_256", 32, 128
+	}
+	return "hash", 32, 64
+}
+
+//verif:stub for=(crypto.Hash).New
+func stubHashNew(h crypto.Hash) hash.Hash {
+	n, s, b := hashParams(h)
+	return NewHashStub(n, s, b)
+}
+
+//verif:stub for=(crypto.Hash).Size
+func stubHashSize(h crypto.Hash) int {
+	_, s, _ := hashParams(h)
+	return s
+}
+
+// ShakeStub: an extendable-output function as an uninterpreted function of (input, output length).
+type ShakeStub struct {
+	name string
+	log  []byte
+}
+
+func NewShakeStub(name string) *ShakeStub { return &ShakeStub{name: name} }
+
+func (x *ShakeStub) Write(p []byte) (int, error) {
+	x.log = append(x.log, p...)
+	return len(p), nil
+}
+func (x *ShakeStub) Read(out []byte) (int, error) {
+	UFBytes(x.name, out, x.log)
+	return len(out), nil
+}
+func (x *ShakeStub) Clone() sha3.ShakeHash {
+	c := &ShakeStub{name: x.name}
+	c.log = append(c.log, x.log...)
+	return c
+}
+func (x *ShakeStub) Reset()              { x.log = nil }
+func (x *ShakeStub) Sum(b []byte) []byte { panic("ShakeStub.Sum") }
+func (x *ShakeStub) Size() int           { return 32 }
+func (x *ShakeStub) BlockSize() int      { return 168 }
+
+// XofOf: the output symbol for a complete input.
+func XofOf(name string, n int, data []byte) []byte {
+	out := make([]byte, n)
+	UFBytes(name, out, data)
+	return out
 }
